@@ -50,6 +50,21 @@ def run_flow(ctx) -> RuleResult:
             if len(stores) == 1 and uses:
                 expanded_reads.extend((key, use) for use in uses)
                 continue
+        # a field of a private record (NamedTuple) that carries the option values:  style = _Style(graded=options[...])
+        if isinstance(parent, ast.keyword) and isinstance(getattr(parent, "_parent", None), ast.Call):
+            ctor = parent._parent
+            from ..paths import RECORDS
+
+            holder = getattr(ctor, "_parent", None)
+            if isinstance(ctor.func, ast.Name) and ctor.func.id in RECORDS and isinstance(holder, ast.Assign) \
+                    and len(holder.targets) == 1 and isinstance(holder.targets[0], ast.Name) and parent.arg in RECORDS[ctor.func.id]:
+                rec = holder.targets[0].id
+                stores = [n for n in ast.walk(func) if isinstance(n, ast.Name) and n.id == rec and isinstance(n.ctx, ast.Store)]
+                uses = [n for n in ast.walk(func) if isinstance(n, ast.Attribute) and n.attr == parent.arg
+                        and isinstance(n.value, ast.Name) and n.value.id == rec and isinstance(n.ctx, ast.Load)]
+                if len(stores) == 1 and uses:
+                    expanded_reads.extend((key, use) for use in uses)
+                    continue
         expanded_reads.append((key, node))
     reads = expanded_reads
     for key, node in reads:
